@@ -261,6 +261,13 @@ theorem ext_ghostPatternPass (msg : String) (g : GhostData) : Ext (ghostPatternP
   · exact mem_insert_of_mem _ _ _ hm
   · exact hm
 
+theorem ext_variantGhostChildPass (g : GhostData) : Ext (variantGhostChildPass g) := by
+  intro es m hm
+  unfold variantGhostChildPass
+  split
+  · exact mem_insert_of_mem _ _ _ hm
+  · exact hm
+
 theorem ext_memberNameCheck (f : Field) (ty : TypePath) (k : Kind) (msg : String) : Ext (memberNameCheck f ty k msg) := by
   intro es m hm
   unfold memberNameCheck
@@ -385,11 +392,13 @@ theorem ext_validateMember (input : DataType) (isEnum : Bool) (tps : List TypePa
     · apply ext_validateMemberErrorInstrs
       apply ext_validateDedicatedMemberAttrs
       apply ext_validateDedicatedMemberAttrs
+      apply ext_parentTypePass
+      apply ext_barkAtMemberAttr
       exact hm
     · apply ext_validateDedicatedMemberAttrs
       apply ext_validateDedicatedMemberAttrs
       apply ext_validateDedicatedMemberAttrs
-      refine mem_foldl_of_mem _ _ _ m (fun g es hm => ext_ghostPatternPass _ g es m hm) ?_
+      refine mem_foldl_of_mem _ _ _ m (fun g es hm => ext_variantGhostChildPass g _ m (ext_ghostPatternPass _ g es m hm)) ?_
       apply ext_barkAtMemberAttr
       exact h2
 
